@@ -176,6 +176,15 @@ def make_jobs(ctx):
                             info=dict(layer="G", table=("defined" if defined else "imported"), w2c2_options=" ".join(opts), module_hex=wasm_bytes.hex()), **extra))
     from ..eexpr import expr_jobs
     jobs += expr_jobs(ctx, ["call", "call_indirect"])
+    # which C symbol an import is bound to: the mangling must keep different (module, name) pairs apart
+    from ..elayer import ejob
+    NS = ["array.c", "opcode.c", "instruction.c", "valuetype.c", "sha1.c", "export.c", "debug.c", "section.c"]
+    jobs.append(ejob(ctx, "E.names_injective", "e_names.c", "h_injective", ["c.c:wasmCWriteStringEscaped"], defines=["NLEN=1", "ILEN=3"], flags=["--unwind", "20", "--unwinding-assertions"], native_src=NS,
+                     bounded="two names of <= 3 bytes, every byte value"))
+    for cls, nm in ((0, "E.names_injective_pair"), (1, "E.names_injective_pair.underscore_at_boundary")):
+        jobs.append(ejob(ctx, nm, "e_names.c", "h_injective_pair", ["c.c:wasmCWriteStringEscaped", "c.c:wasmCWriteStringFunctionUse (module __ name)"], defines=["NLEN=1", "ILEN=2", "PAIR_CLASS=%d" % cls],
+                         flags=["--unwind", "20", "--unwinding-assertions"], native_src=NS,
+                         bounded="two (module, name) pairs of <= 2 bytes each, every byte value; class %s" % ("module ends in '_' or name starts with '_' or a part is empty" if cls else "no module ends in '_', no name starts with '_', no empty part")))
     return jobs
 
 
